@@ -507,7 +507,7 @@ fn main() {
         Mode::Explore(t) => *t,
     };
     let rep = Report::new(PROP, tier, cli.seed);
-    let n = tier.pick(3usize, 4usize);
+    let n = tier.pick(3usize, 6usize);
     let cfgs = all_cfgs(tier);
     rep.rule("block = one configuration of the argument under test (kind x default x default_value_if variant x default_missing x env state x one relation/setting); case = one sequence of <= n distinct tokens over the spellings of `o`, `--other=x|y`, `--z`, `sub` (plus a trailing unknown flag under ignore_errors); expected origin, value and value_source from the source lattice R3, plus presence-logic clauses per relation. non-trivial = successful parses whose origin is pinned by R3");
     rep.set("bounds", json!({"configurations": cfgs.len(), "max_tokens": n, "kinds": KINDS.len(), "default_if_variants": DIFS.len(), "env_states": ENVS.len(), "relations": RELS.len()}));
